@@ -131,7 +131,10 @@ pub fn config_json(options: u8) -> String {
     if options & 8 != 0 {
         opts.push("\"generated_file_header\": \"generated by the simulated project\"".into());
     }
-    format!("{{ \"project_root\": \"./src\", \"schema\": \"./schema.graphql\", \"schema_extensions\": [\"./schema-ext.graphql\"], \"options\": {{{}}} }}\n", opts.join(", "))
+    // 32: the artifact directory moves to a sibling at the same depth (`gen_b/__isograph`
+    // instead of `src/__isograph`): generated relative imports stay byte-identical
+    let moved = if options & 32 != 0 { "\"artifact_directory\": \"./gen_b\", " } else { "" };
+    format!("{{ \"project_root\": \"./src\", {moved}\"schema\": \"./schema.graphql\", \"schema_extensions\": [\"./schema-ext.graphql\"], \"options\": {{{}}} }}\n", opts.join(", "))
 }
 
 
